@@ -5,6 +5,8 @@ Each vehicle's role is symbolic:
    0 charging, not full     1 charging, full (leaves this step)     2 queueing with symbolic enqueue time
    3 idle at the station    4 arriving (DispatchStation with exhausted route)
    5 queueing with symbolic enqueue time, battery within the "full" tolerance but below 100 %
+   6 queueing with symbolic enqueue time, battery drained to exactly 0 kWh (idling in the queue clamps at zero)
+   7 queueing with symbolic enqueue time, vehicle of fleet f1 (the station is public)
 plus symbolic installed plugs, ghost chargers and ghost queue members (unmodelled vehicles).
 Vehicle ids are "v0", "v1", "v10" (lexicographic trap for the id tie-break).
 
@@ -31,10 +33,16 @@ ORACLE = os.environ.get("VF_ORACLE", "C18")
 VIDS = ("v0", "v1", "v10")
 
 
+QUEUE_ROLES = (2, 5, 6, 7)
+N_ROLES = 8
+# roles the two other vehicles (v1, v10) range over; the quick tier leaves out the roles that neither free nor claim a plug
+ROLESET = tuple(int(x) for x in os.environ.get("VF_ROLESET", "0,1,2,3,4,5,6,7").split(","))
+
+
 def _role(i):
-    for k in range(6):
+    for k in range(len(ROLESET)):
         if i == k:
-            return k
+            return ROLESET[k]
     return None
 
 
@@ -47,6 +55,10 @@ def _spec(vid, role, enq):
         return A.VSpec(vid, 4, 0, plug="LEVEL_2", energy=10.0, enq=stubs.mk_time(enq))
     if role == 5:
         return A.VSpec(vid, 4, 0, plug="LEVEL_2", energy=49.95, enq=stubs.mk_time(enq))
+    if role == 6:
+        return A.VSpec(vid, 4, 0, plug="LEVEL_2", energy=0.0, enq=stubs.mk_time(enq))
+    if role == 7:
+        return A.VSpec(vid, 4, 0, plug="LEVEL_2", memb=1, energy=10.0, enq=stubs.mk_time(enq))
     if role == 3:
         return A.VSpec(vid, 0, 0, energy=10.0)
     return A.VSpec(vid, 7, 0, plug="LEVEL_2", energy=10.0)
@@ -57,13 +69,13 @@ CASE = int(os.environ.get("VF_CASE", "0"))
 
 def h_fifo(r1: int, r2: int, t0: int, t1: int, t2: int, tot: int, g: int, q: int, perm: int) -> bool:
     """
-    CASE = role of v0 (0..4).  `perm` is the order in which SimulationState.vehicles yields its values (a hash-order
+    CASE = role of v0 (0..7).  `perm` is the order in which SimulationState.vehicles yields its values (a hash-order
     stand-in: the result must respect (enqueue time, id) whatever it is).
-    pre: 0 <= r1 <= 5 and 0 <= r2 <= 5 and 0 <= perm <= 1
+    pre: 0 <= r1 <= 7 and 0 <= r2 <= 7 and 0 <= perm <= 1
     pre: 0 <= t0 <= 100000 and 0 <= t1 <= 100000 and 0 <= t2 <= 100000
     post: _
     """
-    roles = (CASE % 6, _role(r1), _role(r2))
+    roles = (CASE % N_ROLES, _role(r1), _role(r2))
     order = None
     for k, o in enumerate(((0, 1, 2), (2, 1, 0))):  # sorted, reversed
         if perm == k:
@@ -95,7 +107,7 @@ def h_fifo(r1: int, r2: int, t0: int, t1: int, t2: int, tot: int, g: int, q: int
     ok = True
     for i in range(3):
         for j in range(3):
-            if i == j or roles[i] not in (2, 5) or roles[j] not in (2, 5):
+            if i == j or roles[i] not in QUEUE_ROLES or roles[j] not in QUEUE_ROLES:
                 continue
             # j left the queue and charges, i is still queueing
             if k2[j] == 3 and k2[i] == 4:
@@ -108,7 +120,7 @@ def h_fifo(r1: int, r2: int, t0: int, t1: int, t2: int, tot: int, g: int, q: int
 def h_fifo_reach(r1: int, r2: int, t0: int, t1: int, t2: int, tot: int, g: int, q: int, perm: int) -> bool:
     """
     reachability twin (must be refuted; run with CASE 1): two vehicles queueing, exactly one of them gets the plug
-    pre: 0 <= r1 <= 5 and 0 <= r2 <= 5 and 0 <= perm <= 1
+    pre: 0 <= r1 <= 7 and 0 <= r2 <= 7 and 0 <= perm <= 1
     pre: 0 <= t0 <= 100000 and 0 <= t1 <= 100000 and 0 <= t2 <= 100000
     post: _
     """
